@@ -185,6 +185,14 @@ func GenCoverage(r *hx.Rand, module string) *Bundle {
 			msg.Fields[k], msg.Fields[j] = msg.Fields[j], msg.Fields[k]
 		}
 		f.Defs = append(f.Defs, msg)
+
+		// in half of the packages the package options live in a file of their own that defines nothing
+		// (sorted before the others): they count for the whole package all the same
+		if r.Intn(2) == 0 && len(p.Files) > 0 && len(p.Files[0].File.Options) > 0 {
+			opts := p.Files[0].File.Options
+			p.Files[0].File.Options = nil
+			p.Files = append([]*NamedFile{{Name: "a_options", File: &File{Options: opts}}}, p.Files...)
+		}
 	}
 	return b
 }
